@@ -28,8 +28,8 @@ RULE = (
     "distinct by spec hash."
 )
 ASSUMPTIONS = [
-    "a CLI failure where the API succeeds is permitted by the statement (the CLI traps "
-    "floating-point errors) and only counted",
+    "a CLI failure where the API succeeds is accepted only when it is a trapped "
+    "floating-point error (the one documented difference); otherwise it is reported",
     "the reference API calls run in the checking process, the CLI in a fresh interpreter",
 ]
 
@@ -68,6 +68,44 @@ def case_strategy(files):
             "many": st.sampled_from([False, False, True]),
             "existing": st.booleans(),
             "via": st.sampled_from(["subprocess", "subprocess", "convert"]),
+        }
+    )
+
+
+TRAJECTORY_HINTS = ("trajectory", ".sdf", ".mol2", ".pdb", ".gro", "peroxide_opt", "peroxide_irc", "peroxide_relaxed")
+
+
+def many_strategy(files):
+    traj = [f for f in files if any(h in f for h in TRAJECTORY_HINTS)] or files
+    return st.fixed_dictionaries(
+        {
+            "file": st.sampled_from(traj),
+            "target": st.sampled_from(["xyz", "pdb", "mol2", "sdf", "xyz", "pdb", "mol2", "sdf", "poscar", "molden"]),
+            "explicit_in": st.booleans(),
+            "explicit_out": st.sampled_from([False, True, True]),
+            "odd_outname": st.sampled_from([False, True]),
+            "allow": st.booleans(),
+            "many": st.sampled_from([True, True, True, False]),
+            "existing": st.booleans(),
+            "via": st.sampled_from(["subprocess", "convert"]),
+        }
+    )
+
+
+def conversion_strategy(files):
+    """Wavefunction sources that need -c for most targets (SP / generalized contractions)."""
+    wfn = [f for f in files if f.endswith((".fchk", ".molden", ".mkl", ".molden.input", ".cp2k.out", ".mwfn"))] or files
+    return st.fixed_dictionaries(
+        {
+            "file": st.sampled_from(wfn),
+            "target": st.sampled_from(["molden", "molekel", "wfn", "wfx", "fchk"]),
+            "explicit_in": st.booleans(),
+            "explicit_out": st.booleans(),
+            "odd_outname": st.just(False),
+            "allow": st.booleans(),
+            "many": st.just(False),
+            "existing": st.booleans(),
+            "via": st.sampled_from(["subprocess", "convert"]),
         }
     )
 
@@ -172,6 +210,14 @@ def check_case(spec, tmpdir):
             problems.append(Problem("C18/preflight_creates_output", f"{api}: output was created"))
         if api == "ok":
             labels.append("cli_fails_api_succeeds")
+            if "FloatingPointError" not in stderr:
+                # the only documented reason for the converter to fail where the API call sequence
+                # succeeds is its trapping of floating-point errors
+                problems.append(
+                    Problem("C18/fails_where_api_succeeds",
+                            f"converter exit {rc} ({stderr.strip().splitlines()[-1][:200] if stderr.strip() else ''}) "
+                            "although the same API calls succeed")
+                )
     for path in (out_cli, out_api):
         if os.path.exists(path):
             os.remove(path)
@@ -179,15 +225,19 @@ def check_case(spec, tmpdir):
     return problems, nontrivial, labels
 
 
-def shard_pairs(ctx, max_examples):
+def shard_pairs(ctx, max_examples, focus="any"):
     files = corpus_inputs()
     tmpdir = ctx.tmpdir
-    drive(ctx, case_strategy(files), lambda s: check_case(s, tmpdir), max_examples, shrink=False, name="pairs")
+    strat = {"any": case_strategy, "many": many_strategy, "conversion": conversion_strategy}[focus](files)
+    drive(ctx, strat, lambda s: check_case(s, tmpdir), max_examples, shrink=False, name=f"pairs_{focus}")
 
 
 def shards(tier, seed):
     big = tier == "thorough"
-    return [(f"pairs{i}", "shard_pairs", {"max_examples": 260 if big else 22}) for i in range(15)]
+    out = [(f"pairs{i}", "shard_pairs", {"max_examples": 260 if big else 20}) for i in range(9)]
+    out += [(f"many{i}", "shard_pairs", {"max_examples": 260 if big else 20, "focus": "many"}) for i in range(3)]
+    out += [(f"conv{i}", "shard_pairs", {"max_examples": 260 if big else 20, "focus": "conversion"}) for i in range(3)]
+    return out
 
 
 def replay(entry):
